@@ -13,3 +13,172 @@ package procbuilder
 //@   ensures tight: num > 0 ==> (result == 1 || pow2(result - 1) < num)
 //@   loop 1: invariant 1 <= bits && bits <= 62 && (bits == 1 || pow2(bits - 1) < num) && num > 0 && num == old(num)
 //@   loop 1: decreases 63 - bits
+
+//@ func (proc *Conproc) Opcodes_bits() int
+//@   reads proc.Op
+//@   requires proc != nil
+//@   ensures exact: result == (len(proc.Op) <= 32768 ? bitsfor(len(proc.Op)) : 1)
+//@   ensures range: 1 <= result && result <= 15
+//@   ensures adequate: len(proc.Op) <= 32768 ==> len(proc.Op) <= pow2(result)
+//@   ensures tight: len(proc.Op) <= 32768 ==> (result == 1 || pow2(result - 1) < len(proc.Op))
+//@   loop 1: invariant 1 <= bits && bits <= 16 && served == 1 && (bits == 1 || pow2(bits - 1) < len(proc.Op))
+//@   loop 1: decreases 16 - bits
+//@   pure
+
+//@ func (proc *Conproc) Inputs_bits() int
+//@   reads proc.N
+//@   requires proc != nil
+//@   ensures exact: result == bitsfor(int(proc.N))
+//@   ensures range: 1 <= result && result <= 8
+//@   ensures adequate: int(proc.N) <= pow2(result)
+//@   ensures tight: result == 1 || pow2(result - 1) < int(proc.N)
+//@   loop 1: invariant 1 <= bits && bits <= 9 && served == 1 && (bits == 1 || pow2(bits - 1) < int(proc.N))
+//@   loop 1: decreases 16 - bits
+//@   pure
+
+//@ func (proc *Conproc) Outputs_bits() int
+//@   reads proc.M
+//@   requires proc != nil
+//@   ensures exact: result == bitsfor(int(proc.M))
+//@   ensures range: 1 <= result && result <= 8
+//@   ensures adequate: int(proc.M) <= pow2(result)
+//@   ensures tight: result == 1 || pow2(result - 1) < int(proc.M)
+//@   loop 1: invariant 1 <= bits && bits <= 9 && served == 1 && (bits == 1 || pow2(bits - 1) < int(proc.M))
+//@   loop 1: decreases 16 - bits
+//@   pure
+
+//@ func zeros_prefix(num int, value string) string
+//@   requires num >= 0
+//@   ensures length: len(result) == (num > len(value) ? num : len(value))
+//@   ensures value: val(result) == val(value)
+//@   ensures binary: isbin(value) ==> isbin(result)
+//@   ensures nopad: num <= len(value) ==> result == value
+//@   loop 1: invariant 0 <= i && (num > len(value) ==> i <= num - len(value)) && (num <= len(value) ==> i == 0) && len(result) == len(value) + i && val(result) == val(value) &&
+//@                    (isbin(value) ==> isbin(result)) && (i == 0 ==> result == value)
+//@   loop 1: decreases num - len(value) - i
+//@   pure
+
+//@ func get_id(intr string) int
+//@   requires len(intr) <= 62
+//@   ensures result == val(intr)
+//@   loop 1: invariant 0 <= i && i <= len(intr) && result == val(sub(intr, len(intr) - i, len(intr))) && 0 <= result && result < pow2(i)
+//@   loop 1: decreases len(intr) - i
+//@   pure
+
+//@ func get_binary(i int) string
+//@   requires i >= 0
+//@   ensures result == binstr(i)
+//@   pure
+
+//@ func Get_register_name(i int) string
+//@   ensures result == cat("r", itoa(i))
+//@   pure
+//@ func Get_input_name(i int) string
+//@   ensures result == cat("i", itoa(i))
+//@   pure
+//@ func Get_output_name(i int) string
+//@   ensures result == cat("o", itoa(i))
+//@   pure
+
+//@ func Process_input(iregname string, input_num int) (string, error)
+//@   ensures found: result1 == nil ==> exists k int :: 0 <= k && k < input_num && iregname == cat("i", itoa(k)) && result == binstr(k)
+//@   ensures notfound: result1 != nil ==> forall k int :: 0 <= k && k < input_num ==> iregname != cat("i", itoa(k))
+//@   loop 1: invariant 0 <= i && forall k int :: 0 <= k && k < i ==> iregname != cat("i", itoa(k))
+//@   pure
+
+//@ func Process_output(iregname string, input_num int) (string, error)
+//@   ensures found: result1 == nil ==> exists k int :: 0 <= k && k < input_num && iregname == cat("o", itoa(k)) && result == binstr(k)
+//@   ensures notfound: result1 != nil ==> forall k int :: 0 <= k && k < input_num ==> iregname != cat("o", itoa(k))
+//@   loop 1: invariant 0 <= i && forall k int :: 0 <= k && k < i ==> iregname != cat("o", itoa(k))
+//@   pure
+
+//@ func (proc *Conproc) Decode_opcode(intr string) (int, error)
+//@   requires proc != nil && len(intr) >= 15
+//@   ensures result1 == nil && result == val(sub(intr, 0, (len(proc.Op) <= 32768 ? bitsfor(len(proc.Op)) : 1)))
+//@   pure
+
+// ---------------------------------------------------------------------------------------------
+// Architecture validity (what the code itself needs: 1<<R, 1<<O, 1<<L are slice lengths; VM.Init rejects Rsize > 64)
+//@ pred wfArch(arch *Arch) := arch != nil && 1 <= int(arch.R) && int(arch.R) <= 30 && int(arch.O) <= 30 && int(arch.L) <= 30 &&
+//@        1 <= int(arch.Rsize) && int(arch.Rsize) <= 64 && len(arch.Modes) >= 1 &&
+//@        (arch.Modes[0] == "ha" || arch.Modes[0] == "vn" || arch.Modes[0] == "hy") && 1 <= len(arch.Op) && len(arch.Op) <= 32768 &&
+//@        (forall k int :: 0 <= k && k < len(arch.Op) ==> arch.Op[k] != nil)
+
+//@ interface Opcode method Op_get_name() string
+//@   reads nothing
+//@   pure
+
+//@ interface Opcode method Op_get_instruction_len(arch *Arch) int
+//@   reads arch.R, arch.Rsize, arch.N, arch.M, arch.L, arch.O, arch.Modes, arch.Modes[*], arch.Op, arch.Shared_constraints, arch.Tag
+//@   requires arch != nil && len(arch.Modes) >= 1
+//@   pure
+
+//@ func (arch *Arch) Max_word() int
+//@   reads arch.R, arch.Rsize, arch.N, arch.M, arch.L, arch.O, arch.Modes, arch.Modes[*], arch.Op, arch.Shared_constraints, arch.Tag, arch.WordSize, arch.Op[*]
+//@   requires arch != nil && len(arch.Modes) >= 1 && (forall k int :: 0 <= k && k < len(arch.Op) ==> arch.Op[k] != nil)
+//@   ensures fixed: arch.WordSize != 0 ==> result == int(arch.WordSize)
+//@   ensures auto: arch.WordSize == 0 ==> result >= 1 && (forall k int :: 0 <= k && k < len(arch.Op) ==> result >= arch.Op[k].Op_get_instruction_len(arch))
+//@   loop 1: invariant now >= 1 && forall k int :: 0 <= k && k < $i ==> now >= arch.Op[k].Op_get_instruction_len(arch)
+//@   pure
+
+//@ interface Opcode method Assembler(arch *Arch, words []string) (string, error)
+//@   requires wfArch(arch)
+//@   ensures at_least_width: err == nil ==> arch.Opcodes_bits() + len(result) >= arch.Max_word()
+//@   ensures binary: err == nil ==> isbin(result)
+//@   pure
+
+// Process_number goes through the number library (bmnumbers.ImportString + ExportBinary(false)); its contract is
+// assumed here and is what property C08 establishes on the bmnumbers side.
+//@ func Process_number(input string) (string, error)
+//@   ensures binary: result1 == nil ==> isbin(result)
+//@   trusted
+//@   pure
+
+//@ func Process_shared(soshort string, soname string, num int) (string, error)
+//@   ensures found: result1 == nil ==> exists k int :: 0 <= k && k < num && soname == cat(soshort, itoa(k)) && result == binstr(k)
+//@   loop 1: invariant 0 <= i
+//@   pure
+
+//@ func (arch *Arch) Shared_num(soname string) int
+//@   reads arch.Shared_constraints
+//@   ensures result >= 0
+//@   trusted
+//@   pure
+
+//@ func (arch *Arch) Shared_bits(soname string) int
+//@   reads arch.Shared_constraints
+//@   requires arch != nil
+//@   ensures 0 <= result && result <= 255
+//@   loop 1: invariant 1 <= bits && bits <= 256 && served == 1
+//@   pure
+
+//@ interface Sharedel method Shr_get_name() string
+//@   pure
+//@ interface Sharedel method Shortname() string
+//@   pure
+
+//@ func soLists(t string, sharedConstrains string, num int) [][]string
+//@   trusted
+//@   pure
+
+// rom depth selected by the execution mode (address bits of the program memory)
+//@ spec romBits(arch *Arch) int := arch.Modes[0] == "ha" ? int(arch.O) : (arch.Modes[0] == "vn" ? int(arch.L) : (arch.O > arch.L ? int(arch.O) : int(arch.L)))
+
+//@ func (arch *Arch) Assembler_process_line(line []byte) (string, error)
+//@   requires wfArch(arch)
+//@   ensures exact_width: result1 == nil && result != "" ==> len(result) == arch.Max_word()
+//@   ensures binary: result1 == nil ==> isbin(result)
+//@   ensures valid_opcode: result1 == nil && result != "" ==> val(sub(result, 0, arch.Opcodes_bits())) < len(arch.Op)
+//@   loop 1: invariant true
+//@   pure
+
+//@ func (arch *Arch) Assembler(inp []byte) (Program, error)
+//@   requires wfArch(arch)
+//@   ensures width: result1 == nil ==> forall k int :: 0 <= k && k < len(result.Slocs) ==> len(result.Slocs[k]) == arch.Max_word() && isbin(result.Slocs[k])
+//@   ensures fits: result1 == nil ==> len(result.Slocs) <= pow2(romBits(arch))
+//@   assigns nothing
+//@   loop 1: modifies curLine[*], maxLines[*]
+//@   loop 1: invariant idx: 0 <= iLine && iLine <= 256 && 0 <= j && j <= len(maxLines) && impLine == j + 1
+//@   loop 1: invariant words: forall k int :: 0 <= k && k < j ==> len(maxLines[k]) == arch.Max_word() && isbin(maxLines[k])
+//@   loop 2: modifies lines[*]
+//@   loop 2: invariant forall k int :: 0 <= k && k < $i ==> lines[k] == maxLines[k]
